@@ -277,7 +277,7 @@ def c02_result_identity(run, model, rule="C02.result-identity", rule_fwd="C14.fo
             )
         for ev in bodies:
             run.check(
-                ev.get("own_args"),
+                ev.get("own_args") or (role == "inv[init]" and _object_init_exception(model, res, ev)),
                 rule_fwd,
                 "%s:body@%s" % (res.fi.qual, _ev_ordinal(bodies, ev)),
                 "the decorated function receives exactly the wrapper's own *args, **kwargs",
@@ -286,6 +286,65 @@ def c02_result_identity(run, model, rule="C02.result-identity", rule_fwd="C14.fo
                 None,
                 first_line(ev["node"].stmt),
             )
+
+
+def object_init_args(run, model, rule="C14.object-init-args"):
+    """A class with invariants and no ``__init__`` of its own gets the wrapper of ``object.__init__`` as ``__init__``.
+    ``object.__init__`` tolerates constructor arguments only while the class overrides ``__new__`` and *not*
+    ``__init__`` -- and the wrapper counts as an override.  So the wrapper must not pass the arguments on in that case,
+    or a subclass that merely adds ``__new__(cls, x)`` can no longer be instantiated."""
+    regs = marker.regions(model)
+    res = regs["inv[init]"]
+    run.saw(res.wr.flow)
+    bodies = [ev for evs in res.wr.events().values() for ev in evs if ev["kind"] == "BODY"]
+    ok = bool(bodies) and all(_object_init_exception(model, res, ev) for ev in bodies)
+    run.check(ok, rule, res.fi.qual, "where the wrapped constructor is object.__init__ and the class overrides __new__, only the instance is passed on", "the wrapper installed in place of `object.__init__` forwards the constructor's arguments unconditionally: `object.__init__` rejects them because the wrapper counts as an override of `__init__` -- a subclass of a class with invariants that defines only `__new__(cls, x)` fails with TypeError on instantiation, although the same hierarchy without invariants works", res.fi.loc(bodies[0]["node"]) if bodies else res.fi.loc(), None, first_line(bodies[0]["node"].stmt) if bodies else None)
+
+
+def _object_init_exception(model, res, ev):
+    """The one permitted deviation from "the constructor receives the wrapper's own arguments": where the wrapped
+    constructor is ``object.__init__`` itself and the class of the instance overrides ``__new__``, only the instance is
+    passed on -- ``object.__init__`` ignores the arguments of the constructor as long as ``__init__`` is not overridden,
+    and the wrapper counts as an override (a subclass defining only ``__new__(cls, x)`` must stay instantiable)."""
+    from ..guards import GuardGraph
+    from ..flow import subterms as _subterms
+
+    flow = res.wr.flow
+    call = ev["call"]
+    if not (len(call.args) == 1 and isinstance(call.args[0], ast.Starred) and len(call.keywords) == 1 and call.keywords[0].arg is None):
+        return False
+    at = strip_sites(flow.term(call.args[0].value, ev["node"]))
+    kt = strip_sites(flow.term(call.keywords[0].value, ev["node"]))
+    if at[0] != "phi" or kt[0] != "phi" or len(at[1]) != 2 or len(kt[1]) != 2:
+        return False
+    own_a, own_k = ("param", res.wr.vararg), ("param", res.wr.kwarg)
+    if own_a not in at[1] or own_k not in kt[1]:
+        return False
+    alt_a = [x for x in at[1] if x != own_a][0]
+    alt_k = [x for x in kt[1] if x != own_k][0]
+    if not (alt_a[0] == "display" and alt_a[1] == "tuple" and len(alt_a[2]) == 1 and marker._is_instance_term(model, res, alt_a[2][0])):
+        return False
+    if not (alt_k[0] == "display" and alt_k[1] == "dict" and not alt_k[2]):
+        return False
+    inst = alt_a[2][0]
+    gg = GuardGraph(flow)
+    stores = [n for n in flow.cfg.nodes if n.kind == "stmt" and isinstance(n.ast, (ast.Assign, ast.AugAssign, ast.AnnAssign)) and any(isinstance(x, ast.Name) and isinstance(x.ctx, ast.Store) and x.id in (res.wr.vararg, res.wr.kwarg) for x in ast.walk(n.ast))]
+    if not stores:
+        return False
+    for n in stores:
+        is_obj_init = new_overridden = False
+        for (nid, k), (kn, atoms) in gg.edge_facts.items():
+            for a, pol in kn:
+                if not gg.necessary([flow.cfg.entry], [n.id], (a, pol)):
+                    continue
+                ts = strip_sites(a)
+                if ts[0] == "op" and ts[1] in ("cmp:Eq", "cmp:Is") and pol and res.wr.is_func_param(ts[2][0]) and ts[2][1] == ("attr", ("builtin", "object"), "__init__"):
+                    is_obj_init = True
+                if ts[0] == "op" and ts[1] in ("cmp:Is", "cmp:Eq") and not pol and ts[2][1] == ("attr", ("builtin", "object"), "__new__") and ts[2][0][0] == "attr" and ts[2][0][2] == "__new__" and any(s_ == inst for s_ in _subterms(ts[2][0])):
+                    new_overridden = True
+        if not (is_obj_init and new_overridden):
+            return False
+    return True
 
 
 def _ret_ordinal(flow, n):
